@@ -195,7 +195,7 @@ theorem gen_reportSites : Dtn7.Gen.C15.reportSites =
 theorem gen_deletionSites : Dtn7.Gen.C15.deletionSites =
     ["transmit | if src != bpv7.DtnNone() && !c.HasEndpoint(src) | bundleDeletion(bp, bpv7.NoInformation)",
     "receive | unless len(bp.Constraints) > 0 | for i := len(bp.MustBundle().CanonicalBlocks) - 1; i >= 0; i-- | unless bpv7.GetExtensionBlockManager().IsKnown(cb.TypeCode()) | if cb.BlockControlFlags.Has(bpv7.DeleteBundle) | bundleDeletion(bp, bpv7.BlockUnsupported)",
-    "forward | if hcBlock, err := bp.MustBundle().ExtensionBlock(bpv7.ExtBlockTypeHopCountBlock); err == nil | if exceeded := hc.IsExceeded(); exceeded | bundleDeletion(bp, bpv7.HopLimitExceeded)",
+    "forward | if hcBlock, err := bp.MustBundle().ExtensionBlock(bpv7.ExtBlockTypeHopCountBlock); err == nil | if exceeded | bundleDeletion(bp, bpv7.HopLimitExceeded)",
     "forward | if bp.MustBundle().IsLifetimeExceeded() | bundleDeletion(bp, bpv7.LifetimeExpired)",
     "forward | unless bp.MustBundle().IsLifetimeExceeded() | if age, err := bp.UpdateBundleAge(); err == nil | if age >= bp.MustBundle().PrimaryBlock.Lifetime | bundleDeletion(bp, bpv7.LifetimeExpired)",
     "localDelivery | if bp.MustBundle().IsAdministrativeRecord() | if !c.checkAdministrativeRecord(bp) | bundleDeletion(bp, bpv7.NoInformation)"] := by rfl
